@@ -56,6 +56,7 @@ class FnRecord:
         self.out_first = None; self.out_last = None
         self.rewrites = {}; self.cut = 0
         self.clauses = []   # (kind, text) of spliced ensures/requires/invariants
+        self.ghost_pieces = []
         self.ghost_ranges = []  # (first_line, last_line, kind, text)
 
 def _find_subseq(toks, lo, hi, pat):
@@ -96,7 +97,28 @@ class Emitter:
     # ------------------------------------------------------------------
     def process(self, template_rel):
         self._process_file(os.path.join(self.verif, template_rel))
+        # N4: generated wrappers for literal-only format! calls (body IS the original call)
+        gen = []
+        for k, lit in enumerate(self.fmt_lits):
+            gen.append("pub uninterp spec fn fmt_lit_%d_bytes() -> Seq<u8>;\n"
+                       "#[verifier::external_body]\n"
+                       "pub fn fmt_lit_%d() -> (r: String)\n"
+                       "    ensures string_bytes(r) == fmt_lit_%d_bytes(), fmt_lit_%d_bytes().len() <= 65535\n"
+                       "{ %s }\n" % (k + 1, k + 1, k + 1, k + 1, lit.replace("\n", " ")))
+        for pc in self.pieces:
+            if pc.text == "//@@FMT_LITS@@\n":
+                pc.text = "".join(gen) if gen else "\n"
         text = "".join(p.text for p in self.pieces)
+        # final line numbers of every record (pieces may have been replaced above)
+        starts = []
+        ln = 1
+        for pc in self.pieces:
+            starts.append(ln); ln += pc.text.count("\n")
+        starts.append(ln)
+        for rec in self.records:
+            rec.out_first = starts[rec.p_first]
+            rec.out_last = starts[rec.p_last]
+            rec.ghost_ranges = [(starts[gp], starts[gp + 1], kind) for gp, kind in rec.ghost_pieces]
         # line table
         self.line_src = {}
         line = 1
@@ -120,6 +142,8 @@ class Emitter:
         i = 0
         while i < len(lines):
             ln = lines[i]
+            if ln.startswith("//@fmt_lits"):
+                self._out("//@@FMT_LITS@@\n"); i += 1; continue
             if ln.startswith("//@include "):
                 self._process_file(os.path.join(self.verif, ln.split(None, 1)[1].strip()))
                 i += 1; continue
@@ -463,7 +487,7 @@ class Emitter:
                 raise EmitError("overlapping edits in %s: %r %r" % (rec.qname, a, b))
         for a in opts["attr"]:
             self._out(a + "\n")
-        rec.out_first = self._cur_line()
+        rec.out_first = self._cur_line(); rec.p_first = len(self.pieces)
         if not in_trait_impl and opts["sig"] is None:
             self._out("pub ")
         pos = toks[kw].start
@@ -471,14 +495,14 @@ class Emitter:
         for (s, e, rep, kind) in edits:
             if s > pos:
                 self._out(F.clean[pos:s], F.path, pos)
-            first = self._cur_line()
+            gp = len(self.pieces)
             self._out(rep)
             if kind.startswith("ghost"):
-                rec.ghost_ranges.append((first, self._cur_line(), kind))
+                rec.ghost_pieces.append((gp, kind))
             pos = max(pos, e)
         if pos < stop:
             self._out(F.clean[pos:stop], F.path, pos)
-        rec.out_last = self._cur_line()
+        rec.out_last = self._cur_line(); rec.p_last = len(self.pieces)
         self._out("\n")
         rec.src_tokens = [t.text for t in toks[kw:end + 1]]
         self.records.append(rec)
